@@ -447,3 +447,56 @@ def disp_nseq(out):
 def disp_starts_with_reset(out):
     items = _scan_output(out)
     return len(items) > 0 and items[0][0] == 'sgr' and (len(items[0][1]) == 0 or items[0][1][0] == 0)
+
+
+# ---------------------------------------------------------------------------------------------
+# C15: validity / parsability of a setting text, from the statement
+def is_final_byte(ch):
+    return 0x40 <= ord(ch) and ord(ch) <= 0x7e
+
+
+def all_nonfinal(t):
+    """no character of t is in 0x40-0x7E (engine twin: summaries.twin_all_nonfinal)"""
+    for ch in t:
+        if is_final_byte(ch):
+            return False
+    return True
+
+
+def valid_spec(t):
+    return all_nonfinal(t)
+
+
+def token_value(tok):
+    """the integer a ';'-separated token stands for, or -1 when it is not a plain number"""
+    p = tok.strip()
+    if p == '':
+        return -1
+    try:
+        v = int(p)
+    except ValueError:
+        return -1
+    if v < 0:
+        return -1
+    return v
+
+
+def parsable_spec(t):
+    """t is one complete known SGR parameter group other than reset: a single known code, or 38/48/58 followed by
+    5;n or 2;r;g;b, all values 0..255; and it contains no final byte"""
+    if not valid_spec(t):
+        return False
+    vals = [token_value(x) for x in t.split(';')]
+    for v in vals:
+        if v < 0 or v > 255:
+            return False
+    head = vals[0]
+    if sgr_group(head) == -1 or sgr_kind(head) == K_RESET:
+        return False
+    if head == 38 or head == 48 or head == 58:
+        if len(vals) >= 2 and vals[1] == 5:
+            return len(vals) == 3
+        if len(vals) >= 2 and vals[1] == 2:
+            return len(vals) == 5
+        return False
+    return len(vals) == 1
